@@ -3,6 +3,7 @@ import LoguruModel.Emit.NestedLemmas
 import LoguruModel.Emit.Threads
 import LoguruModel.Emit.Stderr
 import LoguruModel.Emit.RemoveLemmas
+import LoguruModel.Emit.PreLock
 /-
 C04 – a failing handler never breaks the caller, the other handlers, or itself.
 Only the property theorems and their non-vacuity examples live here.  Every statement is about
@@ -597,6 +598,38 @@ theorem raw_message_unaffected_by_format_faults (env : Env) (c : Cfg) (i : Nat) 
   unfold outcome handOff firstFault firstFault firstFault firstFault firstFault faultAt stageActive
   simp [hr, Gen.rawSkipsFormatMap]
 
+/-! ### round 5 – the logger used from a handler's FILTER (`Emit/PreLock.lean`): before the lock, not a re-entry -/
+
+/-- STATE RESTORATION with talking filters: whatever filters and sinks log from inside a logging call (any `pre`,
+    any depth `n`, any fault oracle), a `_log` never blocks and gives back every handler with exactly the lock, marker,
+    stopped flag, worker and config it had, position by position (the analogue of `nested_log_restores_everything`) -/
+theorem filter_using_logger_restores_everything (env : Env) (pre : Nat → Nat → List Nat) (n i : Nat) (reg : Reg)
+    (hi : LockInv reg) :
+    (loopNP env pre n i reg).res ≠ .blocked ∧ (loopNP env pre n i reg).reg.map ctl = reg.map ctl :=
+  loopNP_innerLogOk env pre n i reg hi
+
+/-- an exception escaping from a logging call made by handler `k`'s filter is a failure of THAT handler's filter
+    stage: reported (`catch=True`) or raised (`catch=False`) with the outer record, and nothing of handler `k`'s own
+    pipeline runs – the registry is the one the inner calls left -/
+theorem filter_escape_is_filter_stage_failure (env : Env) (pre : Nat → Nat → List Nat) (innerLog : Nat → Reg → NRet)
+    (k i : Nat) (reg : Reg) (c : Cfg) (s : HState) (e : Err)
+    (hk : reg[k]? = some (c, s)) (hlv : ¬ c.level > env.level i) (hf : c.hasFilter = true)
+    (hp : (runPreCalls innerLog (pre i c.id) reg).res = .raised e) :
+    (emitAtP env pre innerLog k i reg).reg = (runPreCalls innerLog (pre i c.id) reg).reg ∧
+    (emitAtP env pre innerLog k i reg).res =
+      (if c.catch_ then resOf (print env i c.id (some i) e .emit).2 else .raised e) ∧
+    (emitAtP env pre innerLog k i reg).ev =
+      (runPreCalls innerLog (pre i c.id) reg).ev ++ (if c.catch_ then (print env i c.id (some i) e .emit).1 else []) := by
+  unfold emitAtP
+  simp only [hk, hlv, if_false, hf, if_true, hp]
+  cases c.catch_ <;> simp [Gen.emitCaught, hp]
+
+/-- BRIDGE: when no filter uses the logger this layer IS the registry-level loop of `Emit/Nested.lean` – so
+    `layers_agree`, `nested_log_refines_spec` and the rest apply to it unchanged -/
+theorem prelock_layer_agrees (env : Env) (n i : Nat) (reg : Reg) :
+    loopNP env (fun _ _ => []) n i reg = loopN env n i reg :=
+  loopNP_eq_loopN env n i reg
+
 /-! ### non-vacuity: concrete environments meeting the hypotheses, evaluated by the kernel -/
 
 /-- handler 1's `format_map` raises KeyError for message 0; handler 2's stream fails to flush -/
@@ -727,5 +760,22 @@ example :
       { workerAlive := true, sink := [0, 1] } ∧
     (workerRun env { id := 2, enqueue := true } [.bad 7 .other, .msg 0, .msg 1] { workerAlive := true }).2 =
       [.partialReport 2 none false [.header] .worker] := by decide
+
+/-- handler 1's filter logs message 100 while it is asked about message 0: handler 0 has 0 then 100, handlers 1 and 2
+    have 100 then 0 – nobody is refused, nobody blocks; with a `catch=False` handler 2 failing on message 100 the
+    KeyError escapes from handler 1's filter and is reported as ITS failure for message 0 (handler 1 `catch=True`) -/
+example :
+    let reg : Reg := [({ id := 0 }, {}), ({ id := 1, hasFilter := true }, {}), ({ id := 2 }, {})]
+    let pre : Nat → Nat → List Nat := fun i h => if i = 0 ∧ h = 1 then [100] else []
+    (loopNP exEnv pre 2 0 reg).reg.map (fun p => p.2.sink) = [[0, 100], [100], [100, 0]] ∧
+    (loopNP exEnv pre 2 0 reg).res = .ok := by decide
+
+example :
+    let env := { exEnv with fault := fun i h st => if i = 100 ∧ h = 2 ∧ st = .write then some .keyError else none }
+    let reg : Reg := [({ id := 0 }, {}), ({ id := 1, hasFilter := true }, {}), ({ id := 2, catch_ := false }, {})]
+    let pre : Nat → Nat → List Nat := fun i h => if i = 0 ∧ h = 1 then [100] else []
+    (loopNP env pre 2 0 reg).reg.map (fun p => p.2.sink) = [[0, 100], [100], [0]] ∧
+    (loopNP env pre 2 0 reg).ev = [.report 1 (some 0) .keyError false .emit] ∧
+    (loopNP env pre 2 0 reg).res = .ok := by decide
 
 end C04
